@@ -8,7 +8,7 @@ From Coq Require Import String.
 From Coq Require Import List Ascii ZArith Bool Lia.
 From CGV Require Import Base.PyBase Base.PyVal Base.NxGraph Base.PyGen Gen.ReaderGen Dialect.DialectImpl
      Reader.ReaderImpl Reader.Grammar Reader.ReaderLemmas Reader.Lin Reader.GraphLemmas Reader.ReaderSim Reader.ReaderMult
-     Reader.ReaderUnit.
+     Reader.ReaderUnit Reader.ReaderLast Reader.ReaderX.
 Import ListNotations.
 Open Scope Z_scope.
 
@@ -43,7 +43,7 @@ Definition mult_closed_gen (st : rstate) (ba : list (option Z)) (rcf : recipes_t
      s_attributes := s_attributes st; s_base_anchor := base |}.
 
 Lemma close_mult_gen P ms ds after K st ba rc anchor n0 a0 o0 es :
-  Forall inner P -> digits_ok ds = true -> cont K ->
+  Forall inner P -> digits_ok ds = true -> stopk K ->
   s_branch_anchor st = ba ++ [anchor] -> s_recipes st = rc ++ [(anchor, (n0, a0, o0) :: es)] ->
   length rc = length ba -> rec_get anchor rc = None ->
   let entry := (n0, a0, match ms with Some s => Some (sym_ord s) | None => o0 end) :: es in
@@ -53,7 +53,7 @@ Lemma close_mult_gen P ms ds after K st ba rc anchor n0 a0 o0 es :
      Ok (mult_closed_gen st ba (rc ++ [(anchor, entry)]) g cur prev base after, Datatypes.S (length P))).
 Proof.
   intros HP Hd HK Hba Hrc Hlen Habs entry. destruct (digits_ok_all ds Hd) as [Hall Hne].
-  destruct (after_tail_head after K HK) as (h & tl & ET & Hh).
+  destruct (after_tail_head_k after K HK) as (h & tl & ET & Hh).
   unfold close_branch. rewrite Hba, rev_app_distr. cbn [rev app]. rewrite rev_involutive. change (fnc_from ?r ?c 0) with (fnc0 r c).
   rewrite fnc0_spec, (find_idx_inner _ fnc_eon_a HP incl_eon_a). cbn [find_idx].
   change (str_in [")"%char] fnc_eon_a) with true. cbv iota. rewrite Nat.add_0_r. cbn [bind].
@@ -68,7 +68,7 @@ Proof.
                             = Ok (match after with Some s => Some (sym_ord s) | None => pbo end)).
   { intros pbo. unfold T, after_tail. destruct after as [s|]; cbn [osym_str app nth_error].
     - now rewrite sym_mem, sym_lookup.
-    - destruct (cont_head_b K HK) as (h' & tl' & -> & _ & Hm). cbn [nth_error]. now rewrite Hm. }
+    - destruct (stopk_head_b K HK) as (h' & tl' & -> & _ & Hm). cbn [nth_error]. now rewrite Hm. }
   assert (HN : Z.to_nat (Z.of_nat (digits_nat ds) - 1) = (digits_nat ds - 1)%nat) by lia.
   unfold entry. destruct ms as [s|]; cbn [osym_str app nth_error].
   - assert (E1 : Ascii.eqb (sym_char s) "|"%char = false) by (destruct s; reflexivity).
@@ -105,6 +105,23 @@ Proof.
     fold D. fold T. rewrite Hcb. cbn [bind]. rewrite Nat.add_1_r. reflexivity.
 Qed.
 
+(** the closing loop of a multiplied branch, the rounds behind the multiplier left open *)
+Lemma close_all_mult_gen_k P ms ds after K st ba rc anchor n0 a0 o0 es :
+  Forall inner P -> digits_ok ds = true -> stopk K ->
+  s_branch_anchor st = ba ++ [anchor] -> s_recipes st = rc ++ [(anchor, (n0, a0, o0) :: es)] ->
+  length rc = length ba -> rec_get anchor rc = None ->
+  let entry := (n0, a0, match ms with Some s => Some (sym_ord s) | None => o0 end) :: es in
+  let text := P ++ ")"%char :: osym_str ms ++ "|"%char :: digits_str ds ++ after_tail after K in
+  close_all text st
+  = ('(g, cur, _, base) <- exp_times (digits_nat ds - 1) [(anchor, entry)] (s_g st) (s_current st) anchor (Some anchor) ;;
+     prev <- of_option base EUnbound ;;
+     close_loop (length text) text (Datatypes.S (length P)) (mult_closed_gen st ba (rc ++ [(anchor, entry)]) g cur prev base after)).
+Proof.
+  intros HP Hd HK Hba Hrc Hlen Habs entry text. unfold text. rewrite close_all_first by assumption.
+  rewrite (close_mult_gen P ms ds after K st ba rc anchor n0 a0 o0 es HP Hd HK Hba Hrc Hlen Habs). cbv zeta. fold entry.
+  destruct (exp_times _ _ _ _ _ _) as [[[[g cur] pn] base]|]; cbn [bind]; [|reflexivity].
+  destruct base as [b|]; cbn [of_option bind]; reflexivity.
+Qed.
 Lemma close_all_mult_gen P ms ds after K st ba rc anchor n0 a0 o0 es :
   Forall inner P -> digits_ok ds = true -> cont K ->
   s_branch_anchor st = ba ++ [anchor] -> s_recipes st = rc ++ [(anchor, (n0, a0, o0) :: es)] ->
@@ -116,7 +133,7 @@ Lemma close_all_mult_gen P ms ds after K st ba rc anchor n0 a0 o0 es :
      Ok (mult_closed_gen st ba (rc ++ [(anchor, entry)]) g cur prev base after)).
 Proof.
   intros HP Hd HK Hba Hrc Hlen Habs entry. rewrite close_all_first by assumption.
-  rewrite (close_mult_gen P ms ds after K st ba rc anchor n0 a0 o0 es HP Hd HK Hba Hrc Hlen Habs). cbv zeta. fold entry.
+  rewrite (close_mult_gen P ms ds after K st ba rc anchor n0 a0 o0 es HP Hd (cont_stopper K HK) Hba Hrc Hlen Habs). cbv zeta. fold entry.
   destruct (exp_times _ _ _ _ _ _) as [[[[g cur] pn] base]|]; cbn [bind]; [|reflexivity].
   destruct base as [b|]; cbn [of_option bind]; [|reflexivity].
   apply close_loop_stop_after. now apply mult_tail_no_close.
@@ -166,17 +183,59 @@ Proof.
   destruct (mult_val m); [lia|]. reflexivity.
 Qed.
 
+Lemma node_step_mult_gen_k fo st pc nm m ms ds after K ba rc ak n0 a0 o0 es p pend :
+  opened st pc = Ok (true, ba ++ [Some ak], rc ++ [(Some ak, (n0, a0, o0) :: es)]) ->
+  length rc = length ba -> rec_get (Some ak) rc = None ->
+  s_prev_node st = Some p -> s_pbo st = Some pend ->
+  name_ok fo nm = true -> sn_ok m None -> digits_ok ds = true -> stopk K ->
+  node_step fo st pc nm (stail m None ++ ")"%char :: osym_str ms ++ "|"%char :: digits_str ds ++ after_tail after K)
+  = (a <- parse_graph_base_node fo nm ;;
+     let '(g2, nx, pv) := m_copies (mult_val m) a (s_g st) (s_current st) (Some p) pend in
+     let entry := (n0, a0, match ms with Some s => Some (sym_ord s) | None => o0 end)
+                    :: es ++ [(Z.of_nat (mult_val m), a, Some pend)] in
+     '(g3, c3, _, base) <- copies_run (digits_nat ds - 1) entry g2 nx (Some ak) (Some (Some ak)) ;;
+     prev <- of_option base EUnbound ;;
+     let text := stail m None ++ ")"%char :: osym_str ms ++ "|"%char :: digits_str ds ++ after_tail after K in
+     close_loop (length text) text (Datatypes.S (length (stail m None)))
+                (unit_done_gen st ba (rc ++ [(Some ak, entry)]) a g3 c3 prev base after)).
+Proof.
+  intros Hop Hlen Habs Hp Hpb Hn Hs Hd HK. rewrite node_step_eq, Hop. cbn [bind].
+  destruct (scan_simple m None ")"%char (osym_str ms ++ "|"%char :: digits_str ds ++ after_tail after K)
+              (s_current st) (s_cycle st) Hs ltac:(repeat split)) as (xr & rdx & Es & Ec & Ece & Eb).
+  rewrite Es. cbn [bind]. rewrite Eb. cbn [bind].
+  rewrite (nmon_simple m None ")"%char _ Hs eq_refl ltac:(discriminate) eq_refl). cbn [bind oord]. rewrite Nat2Z.id.
+  destruct (parse_graph_base_node fo nm) as [a|e] eqn:Ea; cbn [bind]; [|reflexivity].
+  rewrite rev_app_distr. cbn [rev app]. rewrite (rec_append_app _ _ _ _ Habs). cbn [bind]. rewrite Ece, Hp, Hpb.
+  assert (Hn1 : (1 <= mult_val m)%nat) by (unfold mult_val; destruct m; [now destruct Hs as (_ & ?)|lia]).
+  rewrite (add_nodes_copies (mult_val m) a 1 (s_g st) (s_current st) (Some p) (Some pend) pend
+             (name_ok_ahas fo nm a Hn Ea)) by (intros _ ? _; reflexivity).
+  destruct (m_copies (mult_val m) a (s_g st) (s_current st) (Some p) pend) as [[g2 nx] pv] eqn:Ecp. cbn [bind].
+  match goal with |- context [close_all _ ?S] =>
+    rewrite (close_all_mult_gen_k (stail m None) ms ds after K S ba rc (Some ak) n0 a0 o0 (es ++ [(Z.of_nat (mult_val m), a, Some pend)])
+               (stail_inner m None Hs) Hd HK eq_refl eq_refl Hlen Habs) end.
+  cbn [s_g s_current s_base_anchor]. cbv zeta.
+  rewrite exp_times_single.
+  destruct (copies_run _ _ g2 nx (Some ak) (Some (Some ak))) as [[[[g3 c3] pn] base]|]; cbn [bind]; [|reflexivity].
+  destruct base as [b|]; cbn [of_option bind]; [|reflexivity].
+  unfold mult_closed_gen, unit_done_gen. cbn [s_cycle s_pbo s_attributes]. rewrite Ec.
+  destruct (mult_val m); [lia|]. reflexivity.
+Qed.
+
 Lemma rev_branching (stk : list (option Z)) : (match rev stk with [] => false | _ => true end) = negb (is_nil stk).
 Proof. destruct stk as [|a l]; [reflexivity|]. cbn [rev]. now destruct (rev l). Qed.
 
 (** ** the body of a unit, node by node, below a stack [stk] of open branches *)
 Section UnitBodyGen.
-  Variables (fo : float_oracle) (u : unit_t) (ak : Z) (a0 : attrs) (K : pystr) (stk : list (option Z)) (rc : recipes_t).
+  Variables (fo : float_oracle) (u : unit_t) (ak : Z) (a0 : attrs) (stk : list (option Z)) (rc : recipes_t)
+            (cs : list (option sym)) (kt : pystr).
   Hypothesis Hpa : parse_graph_base_node fo (u_name u) = Ok a0.
   Hypothesis Hna : name_ok fo (u_name u) = true.
   Hypothesis Hbo : body_ok fo (oord (u_bond u)) (u_body u) = true.
   Hypothesis Hd : digits_ok (u_count u) = true.
-  Hypothesis HK : cont K.
+  Hypothesis HK : cont kt.
+  Hypothesis Hcs : closes_ok cs = true.
+  Hypothesis Haft : cs <> [] -> u_after u = None.
+  Hypothesis Hlcs : (length cs <= length stk)%nat.
   Hypothesis Hlen : length rc = length stk.
   Hypothesis Habs : rec_get (Some ak) rc = None.
 
@@ -190,14 +249,17 @@ Section UnitBodyGen.
     body_ok fo (m_pend x) body = true -> last_bond_none body ->
     (forall es_rest, body_entries fo (m_pend x) body = Some es_rest ->
                      body_entries fo (oord (u_bond u)) (u_body u) = Some (es0 ++ es_rest)) ->
-    match m_run fo ((if first then [TOpen] else []) ++ body_toks body ++ rest_toks u) x with
+    match m_run fo ((if first then [TOpen] else []) ++ body_toks body ++ rest_toks u ++ closes_toks cs) x with
     | Ok x1 => exists st1 pre1,
-        main_loop (length body + f) fo pc (pre ++ flat_map bnode_str body ++ closing_str u ++ K) st
-        = main_loop f fo "]"%char (pre1 ++ K) st1
-        /\ Forall skipch pre1 /\ Rel st1 x1 /\ (stk = [] -> s_recipes st1 = []) /\ m_stack x1 = stk /\ m_prev x1 <> None
-    | Err e => main_loop (length body + f) fo pc (pre ++ flat_map bnode_str body ++ closing_str u ++ K) st = Err e
+        main_loop (length body + f) fo pc (pre ++ flat_map bnode_str body ++ closing_str u ++ closes_str cs ++ kt) st
+        = main_loop f fo "]"%char (pre1 ++ kt) st1
+        /\ Forall skipch pre1 /\ Rel st1 x1 /\ (m_stack x1 = [] -> s_recipes st1 = []) /\ m_stack x1 = skipn (length cs) stk
+    | Err e => main_loop (length body + f) fo pc (pre ++ flat_map bnode_str body ++ closing_str u ++ closes_str cs ++ kt) st = Err e
     end.
   Proof.
+    set (K := closes_str cs ++ kt).
+    assert (HKs : stopk K).
+    { unfold K. destruct cs as [|c0 r0]; cbn [closes_str flat_map app]; [now apply cont_stopper|apply close_stopper]. }
     induction body as [|b body IH]; intros first st x pre pc f es0 Hne HR Hfirst Hpc Hpre Hok Hlast Hlink; [contradiction|].
     cbn [body_ok] in Hok. apply andb_prop in Hok as [Hok Hokr]. apply andb_prop in Hok as [Hnm Hsn].
     pose proof (sn_okb_ok _ _ Hsn) as Hs.
@@ -218,8 +280,8 @@ Section UnitBodyGen.
     destruct body as [|b' r].
     - unfold last_bond_none in Hlast. cbn in Hlast. rewrite Hlast in *.
       unfold RT. rewrite Hlast. cbn [flat_map app]. rewrite closing_K.
-      rewrite (node_step_mult_gen fo st (last pre pc) (bn_name b) (bn_mult b) (u_ms u) (u_count u) (u_after u) K (rev stk) rc ak 1 a0 (Some 1) es0 p (m_pend x)
-                 Hop Hlen' Habs (eq_trans Rp Ep) Epb Hnm Hs Hd HK).
+      rewrite (node_step_mult_gen_k fo st (last pre pc) (bn_name b) (bn_mult b) (u_ms u) (u_count u) (u_after u) K (rev stk) rc ak 1 a0 (Some 1) es0 p (m_pend x)
+                 Hop Hlen' Habs (eq_trans Rp Ep) Epb Hnm Hs Hd HKs).
       assert (Em : forall ts, m_run fo ((if first then [TOpen] else []) ++ ts) x
                    = m_run fo ts (mk_m (m_g x) (m_next x) (Some p) (m_pend x) (Some ak :: stk) (m_rings x))).
       { intros ts. destruct first.
@@ -230,10 +292,10 @@ Section UnitBodyGen.
       destruct (parse_graph_base_node fo (bn_name b)) as [a|e] eqn:Ea; cbn [bind]; [|reflexivity].
       rewrite Rg, Rc.
       destruct (m_copies (mult_val (bn_mult b)) a (m_g x) (m_next x) (Some p) (m_pend x)) as [[g2 nx] pv] eqn:Ecp. cbn [bind].
-      unfold rest_toks. cbn [m_run m_step m_stack m_g m_next m_prev m_pend m_rings bind].
+      unfold rest_toks. cbn [app m_run m_step m_stack m_g m_next m_prev m_pend m_rings bind]. rewrite <- app_assoc.
       assert (Hent : body_entries fo (oord (u_bond u)) (u_body u) = Some (es0 ++ [(Z.of_nat (mult_val (bn_mult b)), a, Some (m_pend x))])).
       { apply Hlink. cbn [body_entries]. now rewrite Ea. }
-      pose proof (m_copies_all fo u a0 _ stk (m_rings x) (osym_tok (u_after u)) Hpa Hna Hent Hbo
+      pose proof (m_copies_all fo u a0 _ stk (m_rings x) (osym_tok (u_after u) ++ closes_toks cs) Hpa Hna Hent Hbo
                     (digits_nat (u_count u) - 1) g2 nx ak (Some (Some ak))) as Hall.
       unfold mk_m in Hall. rewrite Hall. clear Hall. cbv zeta.
       assert (Eao : match u_ms u with Some s => Some (sym_ord s) | None => Some 1 end = Some (oord (u_ms u))) by (now destruct (u_ms u)).
@@ -245,20 +307,46 @@ Section UnitBodyGen.
                                    m_pend := (match u_after u with Some s => sym_ord s | None => m_pend st0 end);
                                    m_stack := m_stack st0; m_rings := m_rings st0 |}).
       { intros ts0 st0. destruct (u_after u); [reflexivity|]. now destruct st0. }
-      rewrite <- (app_nil_r (osym_tok (u_after u))), Ea'. cbn [m_run m_g m_next m_prev m_pend m_stack m_rings].
-      eexists _, (stail (bn_mult b) None ++ ")"%char :: osym_str (u_ms u) ++ "|"%char :: digits_str (u_count u) ++ osym_str (u_after u)).
-      split.
-      { unfold after_tail. cbn [length plus]. repeat (rewrite <- app_assoc; cbn [app]). reflexivity. }
-      split.
-      { apply Forall_app; split; [now apply stail_skipch|]. now apply (closing_skipch u). }
-      split; [|split; [|split; [reflexivity|exact Hpn]]].
-      + unfold Rel, unit_done_gen. cbn [s_g s_current s_prev_node s_cycle s_branch_anchor s_branching s_pbo s_attributes
+      rewrite Ea'. cbn [m_g m_next m_prev m_pend m_stack m_rings].
+      (* the state behind the multiplier, then the closings *)
+      match goal with |- context [close_loop _ _ _ ?S] => set (stU := S) end.
+      match goal with |- context [m_run fo (closes_toks cs) ?M] => set (xU := M) end.
+      assert (HRU : Rel stU xU).
+      { unfold Rel, stU, xU, unit_done_gen. cbn [s_g s_current s_prev_node s_cycle s_branch_anchor s_branching s_pbo s_attributes
                                          m_g m_next m_prev m_rings m_stack m_pend].
         repeat split; try assumption; try reflexivity.
-        * apply rev_branching.
-        * destruct (u_after u); reflexivity.
-        * discriminate.
-      + intros ->. reflexivity.
+        - apply rev_branching.
+        - destruct (u_after u); reflexivity.
+        - discriminate. }
+      set (Q0 := stail (bn_mult b) None ++ [")"%char]).
+      set (Q1 := osym_str (u_ms u) ++ "|"%char :: digits_str (u_count u) ++ osym_str (u_after u)).
+      assert (HQ1 : Forall inner Q1).
+      { unfold Q1. apply Forall_app; split; [apply inner_osym|]. constructor; [reflexivity|].
+        apply Forall_app; split; [apply inner_digits; now apply digits_ok_all|apply inner_osym]. }
+      assert (Etext : stail (bn_mult b) None ++ ")"%char :: osym_str (u_ms u) ++ "|"%char :: digits_str (u_count u) ++ after_tail (u_after u) K
+                    = Q0 ++ Q1 ++ closes_str cs ++ kt).
+      { unfold Q0, Q1, K, after_tail. repeat (rewrite <- app_assoc; cbn [app]). reflexivity. }
+      assert (Epos : Datatypes.S (length (stail (bn_mult b) None)) = length Q0) by (unfold Q0; rewrite app_length; cbn [length]; lia).
+      cbv zeta. rewrite Etext, Epos.
+      destruct (closes_sim fo cs (length (Q0 ++ Q1 ++ closes_str cs ++ kt)) Q0 Q1 kt stU xU HQ1 (or_intror HK) Hcs HRU)
+        as (x1 & st1 & Em1 & El1 & HR1 & _ & _ & _ & Estk1 & Hnil1 & Hrec1 & _).
+      { unfold stU, unit_done_gen. cbn [s_attributes]. discriminate. }
+      { unfold stU, xU, unit_done_gen. cbn [s_pbo m_pend]. now destruct (u_after u). }
+      { intros Hne0. unfold xU. cbn [m_pend]. now rewrite (Haft Hne0). }
+      { unfold xU. cbn [m_stack]. exact Hlcs. }
+      { rewrite !app_length. pose proof (closes_str_length cs). unfold Q0. rewrite app_length. cbn [length]. lia. }
+      rewrite Em1, El1. cbn [bind].
+      exists st1, (stail (bn_mult b) None ++ ")"%char :: Q1 ++ closes_str cs).
+      split.
+      { cbn [length plus]. unfold Q0. repeat (rewrite <- app_assoc; cbn [app]). reflexivity. }
+      split.
+      { apply Forall_app; split; [now apply stail_skipch|]. constructor; [split; discriminate|].
+        apply Forall_app; split; [eapply Forall_impl; [|exact HQ1]; apply inner_skipch|apply closes_inner_skip]. }
+      split; [exact HR1|]. split; [|rewrite Estk1; reflexivity].
+      intros E0. destruct cs as [|c0 r0].
+      + rewrite (Hnil1 eq_refl). rewrite Estk1 in E0. unfold xU in E0. cbn [m_stack length skipn] in E0.
+        unfold stU, unit_done_gen. cbn [s_recipes]. rewrite E0. reflexivity.
+      + apply Hrec1; [discriminate|exact E0].
     - set (k := flat_map bnode_str (b' :: r) ++ closing_str u ++ K).
       assert (Hk : cont k) by (unfold k; cbn [flat_map]; unfold bnode_str at 1; cbn [app]; constructor).
       pose proof (blin_ok fo first b Hnm Hsn) as Hokb.
@@ -270,8 +358,8 @@ Section UnitBodyGen.
       pose proof (node_step_lin fo (blin first b) k st x (last pre pc) Hokb Hk
                     (conj Rg (conj Rc (conj Rp (conj Rcy (conj Rba (conj Rbr Rpb)))))) Hpc Hopn ltac:(cbn; intros C; now elim C)) as Hstep.
       change (l_name (blin first b)) with (bn_name b) in Hstep.
-      assert (Em : m_run fo ((if first then [TOpen] else []) ++ body_toks (b :: b' :: r) ++ rest_toks u) x
-                 = (x1 <- item_effect fo (blin first b) x ;; m_run fo (body_toks (b' :: r) ++ rest_toks u) x1)).
+      assert (Em : m_run fo ((if first then [TOpen] else []) ++ body_toks (b :: b' :: r) ++ rest_toks u ++ closes_toks cs) x
+                 = (x1 <- item_effect fo (blin first b) x ;; m_run fo (body_toks (b' :: r) ++ rest_toks u ++ closes_toks cs) x1)).
       { rewrite <- (m_item fo (blin first b) _ x Hokb). rewrite blin_toks. cbn [body_toks flat_map]. now rewrite <- !app_assoc. }
       rewrite Em. clear Em.
       destruct (item_effect fo (blin first b) x) as [x1|e] eqn:Eeff; cbn [bind].
